@@ -309,6 +309,7 @@ func RunOne(t *testing.T, w *World, o RunOpts) *RunResult {
 		res.GenVals, res.SchedVals = gt.Recorded(), st.Recorded()
 	}
 	runtime.GC() // between runs, outside the bubble (GOGC=off while a run is in progress)
+	verifsync.DrainFinalizers()
 	res.WallMicros = time.Since(t0).Microseconds()
 	return res
 }
